@@ -27,8 +27,10 @@ SEC_ASSUMPTIONS = BP_ASSUMPTIONS + [
 def cover_models():
     runs = [ModelRun('BpSecCover', COVER_CFG % '{}', 'cover', workers=8,
                      note='every alteration class x every AAD scope (64) x key right/wrong: what the code binds vs. '
-                          'the declarative Covered relation')]
-    for dev in ('aad_without_primary', 'aad_without_target_meta', 'aad_without_protected'):
+                          'the declarative Covered relation; and every pair of operations in one bundle (class x 2 '
+                          'scopes x key, twice, acceptance on/off): delivered iff every operation verifies')]
+    for dev in ('aad_without_primary', 'aad_without_target_meta', 'aad_without_protected', 'last_result_wins',
+                'skips_after_accepted'):
         runs.append(ModelRun('BpSecCover', COVER_CFG % ('{"%s"}' % dev), 'cover-dev-' + dev, expect='violation',
                              workers=8, note='an AAD that omits this part must be caught'))
     return runs
